@@ -164,6 +164,16 @@ def larger_configs(tier):
                      'noise': 'Z', 'p': 0.5, '_calls': 24000})
         cfgs.append({'decoder': 'RotatedSweepMatchDecoder', 'code': 'RotatedPlanar3DCode', 'size': [3, 3, 2],
                      'noise': 'Z', 'p': 0.3, '_calls': 6000})
+    # BP-OSD and matching on deformed noise, the reused object also serving trials at
+    # another rate in between
+    cfgs.append({'decoder': 'BeliefPropagationOSDDecoder', 'code': 'Toric2DCode', 'size': [3, 5],
+                 'noise': 'Zbias', 'p': 0.05, 'noise_def': 'XZZX', 'noise_def_kw': {},
+                 'dec_kwargs': {'max_bp_iter': 10, 'osd_order': 0}, '_trial_at_rate': 0.45})
+    cfgs.append({'decoder': 'BeliefPropagationOSDDecoder', 'code': 'RotatedPlanar2DCode', 'size': [3, 3],
+                 'noise': 'Zbias', 'p': 0.3, 'noise_def': 'XZZX', 'noise_def_kw': {},
+                 'dec_kwargs': {'max_bp_iter': 10, 'osd_order': 0, 'bp_method': 'product_sum'}, '_trial_at_rate': 0.02})
+    cfgs.append({'decoder': 'MatchingDecoder', 'code': 'Planar2DCode', 'size': [3, 4],
+                 'noise': 'Zbias', 'p': 0.05, 'noise_def': 'XZZX', 'noise_def_kw': {}, '_trial_at_rate': 0.4})
     for c in cfgs:
         c['_long'] = True
     return cfgs
@@ -174,6 +184,7 @@ def drive(cfg):
     tier = cfg.pop('_tier')
     long_hist = cfg.pop('_long', False)
     intruder_p = cfg.pop('_intruder_p', None)
+    trial_rate = cfg.pop('_trial_at_rate', None)
     calls = cfg.pop('_calls', None)
     rng = np.random.default_rng(common.seed() + abs(hash(D.config_label(cfg))) % 2**31)
     rec = D.Recorder(cfg)
@@ -234,6 +245,14 @@ def drive(cfg):
     for j_, s in enumerate(seq):
         if intruder is not None and j_ % 2 == 0:
             intrude()
+        if trial_rate is not None and j_ % 3 == 1:
+            # the reused decoder serves a whole trial of a simulation that runs at ANOTHER
+            # error rate than the one it was built for (run_once takes the two separately)
+            import contextlib
+            import io
+            from panqec.simulation import run_once
+            with contextlib.redirect_stdout(io.StringIO()):
+                run_once(code, em, rec.objs[0], trial_rate, rng=np.random.default_rng(j_))
         rec.decode(0, s.astype(np.uint8))
     # every distinct syndrome once on a fresh object
     for k, s in enumerate(list(distinct.values())[:(300 if calls else None)], start=1):
